@@ -12,6 +12,7 @@ import (
 )
 
 type Env struct {
+	macros   []Macro
 	c        *FnCtx
 	st       *State
 	old      *State
@@ -33,7 +34,17 @@ func (c *FnCtx) newEnv(fr *Frame, st, old *State) *Env {
 	if fr != nil && fr.fn.Pkg != nil {
 		env.pkg = fr.fn.Pkg.Pkg
 	}
+	if fr != nil && fr.spec != nil {
+		env.macros = fr.spec.Macros
+	}
 	return env
+}
+
+func (env *Env) pkgMacros() []Macro {
+	if env.pkg != nil {
+		return env.c.eng.specs.Macros[env.pkg.Path()]
+	}
+	return nil
 }
 
 func (env *Env) with(name string, v Val) *Env {
@@ -654,6 +665,14 @@ func (env *Env) evalSel(e *Expr) Val {
 		case "$pay":
 			return base.Fs[1]
 		}
+		if strings.HasPrefix(e.Name, "$") && base.Ty != nil {
+			srt := env.ghostFieldSort(base.Ty, e.Name)
+			if srt == "" {
+				fail("%s: ghost field %s not declared on %s", e.Pos, e.Name, base.Ty.String())
+			}
+			a := c.heapGet(env.st, ghostArrayName(base.Ty, e.Name), arrSort(srt))
+			return sortVal("(select "+a+" "+base.Fs[1].T+")", srt)
+		}
 	}
 	fail("%s: cannot select .%s from %s", e.Pos, e.Name, e.Args[0].String())
 	return Val{}
@@ -741,7 +760,7 @@ func (env *Env) evalCall(e *Expr) Val {
 				}
 			}
 		case KStr:
-			return mkInt("(str.len "+x.T+")", nil)
+			return mkInt("(gstr.len "+x.T+")", nil)
 		case KArray:
 			return mkInt(fmt.Sprint(len(x.Fs)), nil)
 		}
@@ -836,8 +855,40 @@ func (env *Env) evalCall(e *Expr) Val {
 		fail("%s: haskey on non-map", e.Pos)
 	case "keyof":
 		return mkInt(c.keyTerm(env.eval(e.Args[0])), nil)
-	case "pre":
-		// invariant of a type applied to an object: pre(Type, obj) – see objInvariant
+	case "arrof":
+		x := env.eval(e.Args[0])
+		if x.K != KSlice {
+			fail("%s: arrof of non-slice", e.Pos)
+		}
+		el := x.Ty.Underlying().(*types.Slice).Elem()
+		lv := leavesOf(el)
+		if len(lv) != 1 {
+			fail("%s: arrof of slice with composite elements", e.Pos)
+		}
+		a := c.heapGet(env.st, elemArrayName(el, ""), arr2Sort(lv[0].sort))
+		return mkOpaque("(select "+a+" "+x.Fs[0].T+")", arrSort(lv[0].sort))
+	case "offof":
+		x := env.eval(e.Args[0])
+		if x.K != KSlice {
+			fail("%s: offof of non-slice", e.Pos)
+		}
+		return mkInt(x.Fs[1].T, nil)
+	}
+	// macros
+	for _, ms := range [][]Macro{env.macros, env.pkgMacros()} {
+		for _, m := range ms {
+			if m.Name == e.Name && len(m.Params) == len(e.Args) {
+				n := env
+				var vals []Val
+				for _, a := range e.Args {
+					vals = append(vals, env.eval(a))
+				}
+				for i, pn := range m.Params {
+					n = n.with(pn, vals[i])
+				}
+				return n.eval(m.Body)
+			}
+		}
 	}
 	// conversions
 	if t := env.resolveType(e.Name); t != nil && len(e.Args) == 1 {
